@@ -225,6 +225,15 @@ func (e *C03) one(ctx *core.Ctx, cnt []int, n, untargeted int, mu, mpsf intstr.I
 			}
 			pod := &corev1.Pod{ObjectMeta: metav1.ObjectMeta{Name: "pod-" + name, Namespace: "ns", CreationTimestamp: metav1.NewTime(t0.Add(-time.Hour)),
 				Annotations: map[string]string{v1.MD5ExtendedDaemonSetAnnotationKey: h}}, Spec: corev1.PodSpec{NodeName: name}}
+			if k == clsOldA && j%2 == 1 {
+				// adopted from the old DaemonSet of a declared migration (annotation on the ExtendedDaemonSet below): owned by
+				// that DaemonSet, no template hash - an outdated available pod like any other ("this also covers pods
+				// adopted from the DaemonSet named by the old-daemonset migration annotation")
+				tr := true
+				delete(pod.Annotations, v1.MD5ExtendedDaemonSetAnnotationKey)
+				pod.OwnerReferences = []metav1.OwnerReference{{APIVersion: "apps/v1", Kind: "DaemonSet", Name: "old-ds", UID: "uid-old-ds", Controller: &tr}}
+				pod.Labels = map[string]string{"app": "old-agent"}
+			}
 			pod.Status.Phase = corev1.PodRunning
 			pod.Status.Conditions = []corev1.PodCondition{kit.ReadyCond(k == clsUpA || k == clsOldA, t0.Add(-time.Minute))}
 			if (k == clsUpU || k == clsOldU) && j%3 == 1 {
@@ -271,7 +280,7 @@ func (e *C03) one(ctx *core.Ctx, cnt []int, n, untargeted int, mu, mpsf intstr.I
 			nCleanup++
 		}
 	}
-	eds := &v1.ExtendedDaemonSet{ObjectMeta: metav1.ObjectMeta{Name: "eds", Namespace: "ns"}}
+	eds := &v1.ExtendedDaemonSet{ObjectMeta: metav1.ObjectMeta{Name: "eds", Namespace: "ns", Annotations: map[string]string{v1.ExtendedDaemonSetOldDaemonsetAnnotationKey: "old-ds"}}}
 	var res *strategy.Result
 	var err error
 	pan := ""
